@@ -762,11 +762,27 @@ func (m *CmdModel) evalIf(x cmdIf) bool {
 	r := m.expandOperand(x.right)
 	ln, lok := isCanonicalInt(l)
 	rn, rok := isCanonicalInt(r)
-	if lok && rok {
-		// non-canonical spellings (leading zeros) would be read as octal by cmd
-		if (len(strings.TrimLeft(l, "-+")) > 1 && strings.TrimLeft(l, "-+")[0] == '0') || (len(strings.TrimLeft(r, "-+")) > 1 && strings.TrimLeft(r, "-+")[0] == '0') {
-			m.unmodelled("non-canonical number in if: %q %q", l, r)
+	// cmd converts with C rules: a leading zero means octal (010 is 8); digits 8 and 9 make such an operand a string
+	octal := func(s string, n int64, ok bool) (int64, bool) {
+		if !ok {
+			return n, ok
 		}
+		body := strings.TrimLeft(s, "-+")
+		if len(body) > 1 && body[0] == '0' {
+			v, err := strconv.ParseInt(body, 8, 64)
+			if err != nil {
+				return 0, false
+			}
+			if strings.HasPrefix(s, "-") {
+				v = -v
+			}
+			return v, true
+		}
+		return n, ok
+	}
+	ln, lok = octal(l, ln, lok)
+	rn, rok = octal(r, rn, rok)
+	if lok && rok {
 		switch x.op {
 		case "equ":
 			return ln == rn
